@@ -131,13 +131,15 @@ theorem step_refines [BEq α] [Inhabited α] (l : Lst α) (hinv : l.Inv) (op : O
         rw [List.take_of_length_le (Nat.le_refl _), List.take_of_length_le (by omega)]
         simp
   | sort f => simp [Spec.lstStep] at h
-  | assign ys =>
-    simp [Spec.lstStep] at h
-    subst h
-    simp only [step, assign, concat, clear, foldl_push, true_and]
-    simp [Inv]
+  | assign ys b =>
+    cases b
+    · simp [Spec.lstStep] at h
+    · simp [Spec.lstStep] at h
+      subst h
+      simp only [step, assign, concat, clear, foldl_push, true_and, if_true]
+      simp [Inv]
 
-theorem step_out_of_range [BEq α] [Inhabited α] (l : Lst α) (hinv : l.Inv) (op : Op α)
+theorem step_out_of_range [BEq α] [Inhabited α] (l : Lst α) (hinv : l.Inv) (op : Op α) (hop : op.iterAssign = false)
     (h : Spec.lstStep l.items op = none) : (l.step op).1 = l ∧ ∃ e, (l.step op).2 = .raised e := by
   have hi : l.nitems = l.items.length := hinv
   cases op with
@@ -171,7 +173,10 @@ theorem step_out_of_range [BEq α] [Inhabited α] (l : Lst α) (hinv : l.Inv) (o
   | concat ys => simp [Spec.lstStep] at h
   | resize n => simp [Spec.lstStep] at h
   | sort f => simp [step, sortBy]
-  | assign ys => simp [Spec.lstStep] at h
+  | assign ys b =>
+    cases b
+    · simp [Op.iterAssign] at hop
+    · simp [Spec.lstStep] at h
 
 theorem get_eq (l : Lst α) (hinv : l.Inv) (i : Int) :
     l.get i = match Spec.get l.items i with
